@@ -1,6 +1,5 @@
 import KcpVerif.Model.Kcp
 import KcpVerif.Lemmas.KcpShiftOps
-import KcpVerif.Lemmas.KcpShiftSafe
 /-!
 C12 — behaviour is invariant under sequence-number and clock wrap-around (protocol core).
 
@@ -9,7 +8,7 @@ receive sequence space, `t` to its clock and `u` to the peer's clock (see `Lemma
 
 * `Shift.Sim σ k k'`   — the state `k'` is `k` shifted by `σ` (equality up to `σ`, except on fields
   that are dead where they may differ: `ts_flush` while `updated = 0`, `ts_probe` while
-  `probe_wait = 0`, `ts`/`una` of a never-transmitted `snd_buf` entry); `Shift.shiftK σ k` is the
+  `probe_wait = 0`, `una` of a never-transmitted `snd_buf` entry); `Shift.shiftK σ k` is the
   canonical such state,
 * `Shift.shiftIn σ`    — the shift of an INCOMING datagram, on wire bytes (PUSH: `ts+u sn+b una+a`,
   ACK: `ts+t sn+a una+a`, WASK/WINS: `una+a`),
@@ -18,11 +17,12 @@ receive sequence space, `t` to its clock and `u` to the peer's clock (see `Lemma
   not related; payload bytes identical),
 * `Shift.Op`, `Shift.step`, `Shift.run`, `Shift.shiftOp σ` — every operation of the core and its shifted twin.
 
-Main results: `C12_shift_sim_partial` (one step) and `C12_run_shift_invariant_partial` (whole op
-lists) for ALL 2^128 shifts, under the explicit decidable side condition `Shift.runSafe`
-("no ACK makes `parse_fastack` look at a never-transmitted segment"), and
-`C12_shift_sim_full_false`: without that side condition the statement is FALSE for the model
-(and, replayed, for kcp.go): a finding.
+Main results: `C12_shift_sim` (one step) and `C12_run_shift_invariant` (whole op lists), for ALL
+2^128 shifts and ALL operations with arbitrary arguments (every byte string for `Input`), with no
+side condition.  (Before fix 8db4321 — a segment entering `snd_buf` now carries the current
+timestamp — they needed one, and were false without it: `parse_fastack` compared the never-set
+`ts = 0` of a never-transmitted segment with the clock; `C12_fastack_fresh_regression` replays
+that input.)
 -/
 namespace KcpVerif.Props
 open KcpVerif KcpVerif.Gen KcpVerif.Kcp KcpVerif.Shift
@@ -69,17 +69,10 @@ theorem C12_ack_shift {σ : Sigma} {k k' : Kcp} (h : Sim σ k k') (una sn : U32)
       (parseUna k' (una + σ.a)).2 = (parseUna k una).2 :=
   ⟨parseAck_sim (shrinkBuf_sim (parseUna_sim h una).1) sn, (parseUna_sim h una).2⟩
 
-/-- `parse_fastack` commutes with the shift when it does not reach a never-transmitted segment -/
-theorem C12_fastack_shift_partial {σ : Sigma} {k k' : Kcp} (h : Sim σ k k') (sn ts : U32)
-    (hs : fastackSafe k sn = true) :
+/-- `parse_fastack` commutes with the shift (it compares `seg.ts` with the ACK's `ts`: both our clock) -/
+theorem C12_fastack_shift {σ : Sigma} {k k' : Kcp} (h : Sim σ k k') (sn ts : U32) :
     Sim σ (parseFastack k sn ts).1 (parseFastack k' (sn + σ.a) (ts + σ.t)).1 ∧
-      (parseFastack k' (sn + σ.a) (ts + σ.t)).2 = (parseFastack k sn ts).2 := parseFastack_sim h sn ts hs
-
-/-- the full statement for `parse_fastack` (no side condition) — FALSE, see `C12_fastack_fresh_counterexample` -/
-def C12_fastack_shift_full : Prop :=
-  ∀ (σ : Sigma) (k k' : Kcp), Sim σ k k' → ∀ sn ts : U32,
-    Sim σ (parseFastack k sn ts).1 (parseFastack k' (sn + σ.a) (ts + σ.t)).1 ∧
-      (parseFastack k' (sn + σ.a) (ts + σ.t)).2 = (parseFastack k sn ts).2
+      (parseFastack k' (sn + σ.a) (ts + σ.t)).2 = (parseFastack k sn ts).2 := parseFastack_sim h sn ts
 
 /-- `update_ack` is given a difference; the cwnd update compares `snd_una` with its old value by a difference -/
 theorem C12_rtt_cwnd_shift {σ : Sigma} {k k' : Kcp} (h : Sim σ k k') (rtt oldUna : U32) :
@@ -112,55 +105,33 @@ theorem C12_shiftIn_fields (σ : Sigma) (data rest : Bytes) (hl : 24 ≤ data.le
   exact ⟨shiftIn_length σ data, f0, f4, f8, f12, f16, f20⟩
 
 /-- whole `Input` on wire bytes (every datagram: malformed, multi-segment, forged), any clock -/
-theorem C12_input_shift_partial {σ : Sigma} {k k' : Kcp} (h : Sim σ k k') (data : Bytes)
-    (regular ackNoDelay : Bool) (now : U32) (hs : inputSafe k data regular = true) :
+theorem C12_input_shift {σ : Sigma} {k k' : Kcp} (h : Sim σ k k') (data : Bytes)
+    (regular ackNoDelay : Bool) (now : U32) :
     InRel σ (input k data regular ackNoDelay now) (input k' (shiftIn σ data) regular ackNoDelay (now + σ.t)) :=
-  input_sim h data regular ackNoDelay now hs
-
-/-- a sufficient condition that needs no look at the datagram: when every segment in `snd_buf` has
-been transmitted at least once (false only between an ACK-only flush that admitted segments and the
-next full flush), `Input` commutes with the shift for EVERY byte string — forged, stale, malformed -/
-theorem C12_input_shift_all_sent {σ : Sigma} {k k' : Kcp} (h : Sim σ k k') (hall : AllSent k.snd_buf)
-    (data : Bytes) (regular ackNoDelay : Bool) (now : U32) :
-    InRel σ (input k data regular ackNoDelay now) (input k' (shiftIn σ data) regular ackNoDelay (now + σ.t)) :=
-  input_sim h data regular ackNoDelay now (inputSafe_of_allSent k data regular hall)
+  input_sim h data regular ackNoDelay now
 
 /-! ### the simulation theorem -/
 
-/-- FULL statement: every operation commutes with every shift. -/
-def C12_shift_sim_full : Prop :=
-  ∀ (σ : Sigma) (k k' : Kcp) (op : Op), Sim σ k k' →
-    Sim σ (step k op).1 (step k' (shiftOp σ op)).1 ∧ ObsRel σ (step k op).2 (step k' (shiftOp σ op)).2
-
-/-- PROVED PART: every operation of the core (Send, Recv, PeekSize, Input, flush, Update, Check,
-SetMtu, NoDelay, WndSize, WaitSnd) commutes with every shift `σ` — same return value, same
-delivered bytes, same panic flag, output datagrams related by `OutRel σ`, `Check`'s instant shifted
-by `t`, successor states related by `Sim σ` — provided that, if the operation is an `Input`, no
-ACK in it makes `parse_fastack` compare the never-set timestamp of a never-transmitted segment
-(`opSafe`; vacuous for every other operation).  What is missing from `C12_shift_sim_full` is exactly
-that case, and there the statement is false (`C12_shift_sim_full_false`). -/
-theorem C12_shift_sim_partial {σ : Sigma} {k k' : Kcp} (h : Sim σ k k') (op : Op) (hs : opSafe k op = true) :
+/-- **Shift simulation.** Every operation of the core (Send, Recv, PeekSize, Input, flush, Update,
+Check, SetMtu, NoDelay, WndSize, WaitSnd), with arbitrary arguments, commutes with every shift `σ`:
+same return value, same delivered bytes, same panic flag, output datagrams related by `OutRel σ`,
+`Check`'s instant shifted by `t`, successor states related by `Sim σ`. -/
+theorem C12_shift_sim {σ : Sigma} {k k' : Kcp} (h : Sim σ k k') (op : Op) :
     Sim σ (step k op).1 (step k' (shiftOp σ op)).1 ∧ ObsRel σ (step k op).2 (step k' (shiftOp σ op)).2 :=
-  step_sim h op hs
+  step_sim h op
 
-/-- FULL statement for runs -/
-def C12_run_shift_invariant_full : Prop :=
-  ∀ (σ : Sigma) (conv : U32) (ops : List Op),
-    All₂ (ObsRel σ) (run (Kcp.new conv) ops).2 (run (shiftK σ (Kcp.new conv)) (ops.map (shiftOp σ))).2
-
-/-- PROVED PART: whole runs are shift-invariant, by induction over the op list -/
-theorem C12_run_shift_invariant_partial {σ : Sigma} {k k' : Kcp} (h : Sim σ k k') (ops : List Op)
-    (hs : runSafe k ops = true) :
+/-- **Whole runs are shift-invariant**, by induction over the op list -/
+theorem C12_run_shift_invariant {σ : Sigma} {k k' : Kcp} (h : Sim σ k k') (ops : List Op) :
     Sim σ (run k ops).1 (run k' (ops.map (shiftOp σ))).1 ∧
-      All₂ (ObsRel σ) (run k ops).2 (run k' (ops.map (shiftOp σ))).2 := run_sim h ops hs
+      All₂ (ObsRel σ) (run k ops).2 (run k' (ops.map (shiftOp σ))).2 := run_sim h ops
 
 theorem C12_fresh_new (conv : U32) : Fresh (Kcp.new conv).snd_queue := fun _ hs => by cases hs
 
 /-- … in particular from a fresh core started at ANY sequence numbers and ANY clock:
 for all 2^128 values of `σ`, i.e. every placement of the 2^31 and 2^32 boundaries -/
-theorem C12_run_from_new_partial (σ : Sigma) (conv : U32) (ops : List Op) (hs : runSafe (Kcp.new conv) ops = true) :
+theorem C12_run_from_new (σ : Sigma) (conv : U32) (ops : List Op) :
     All₂ (ObsRel σ) (run (Kcp.new conv) ops).2 (run (shiftK σ (Kcp.new conv)) (ops.map (shiftOp σ))).2 :=
-  (run_sim (sim_shiftK σ (Kcp.new conv) (C12_fresh_new conv)) ops hs).2
+  (run_sim (sim_shiftK σ (Kcp.new conv) (C12_fresh_new conv)) ops).2
 
 /-- consequences of `ObsRel` a test can observe without decoding: same return values, same
 delivered bytes, same number of datagrams, each of the same length -/
@@ -175,9 +146,14 @@ theorem C12_obs_consequences {σ : Sigma} {o o' : Obs} (h : ObsRel σ o o') :
   | nil => exact All₂.nil
   | cons hr _ ih => exact All₂.cons hr.length_eq ih
 
+theorem C12_obsRel_outs_length {σ : Sigma} {l l' : List Obs} (h : All₂ (ObsRel σ) l l') :
+    l'.map (fun o => o.outs.length) = l.map (fun o => o.outs.length) := by
+  induction h with
+  | nil => rfl
+  | cons hr _ ih => simp only [List.map_cons, ih, forall₂_length hr.outs]
+
 /-! ### non-vacuity: a concrete run with data in both directions, a legitimate ACK, window
-update, delivery — it satisfies the side condition, and the theorem applies with a shift that
-puts every boundary inside the run -/
+update, delivery; the theorem applied with a shift that puts every boundary inside the run -/
 
 def C12_demoOps : List Op :=
   [ .noDelay 1 10 2 1, .send [1, 2, 3], .send [4], .update 0,
@@ -185,79 +161,52 @@ def C12_demoOps : List Op :=
     .input (encodeHdr 7 (BitVec.ofNat 8 IKCP_CMD_PUSH) 0 32 77 0 2 2 ++ [9, 9]) true true 6,
     .recv 10, .waitSnd, .update 100, .check 120 ]
 
+/-- send space starts at 2^32−1, receive space at 2^31−1, clock at 2^32−5, peer clock just below 2^31 -/
 def C12_demoσ : Sigma := ⟨0xFFFFFFFF#32, 0x7FFFFFFF#32, 0xFFFFFFFB#32, 0x7FFFFFB3#32⟩
 
 set_option maxRecDepth 100000 in
-example : runSafe (Kcp.new 7) C12_demoOps = true := by decide
+/-- the run is not trivial: it emits datagrams, delivers the peer's two bytes, answers Check -/
+example : (run (Kcp.new 7) C12_demoOps).2.map (fun o => (o.ret, o.data, o.outs.map List.length, o.time)) =
+    [(0, [], [], none), (0, [], [], none), (0, [], [], none), (0, [], [52], none), (0, [], [], none),
+     (0, [], [24], none), (2, [9, 9], [], none), (0, [], [], none), (0, [], [], none),
+     (0, [], [], some 120#32)] := by decide
 
-set_option maxRecDepth 100000 in
-/-- the run is not trivial: it emits datagrams, delivers the peer's two bytes, empties snd_buf -/
-example : (run (Kcp.new 7) C12_demoOps).2.map (fun o => (o.ret, o.data, o.outs.map List.length)) =
-    [(0, [], []), (0, [], []), (0, [], []), (0, [], [52]), (0, [], []), (0, [], [24]),
-     (2, [9, 9], []), (0, [], []), (0, [], []), (0, [], [])] := by decide
-
-set_option maxRecDepth 100000 in
 example : All₂ (ObsRel C12_demoσ) (run (Kcp.new 7) C12_demoOps).2
     (run (shiftK C12_demoσ (Kcp.new 7)) (C12_demoOps.map (shiftOp C12_demoσ))).2 :=
-  C12_run_from_new_partial C12_demoσ 7 C12_demoOps (by decide)
+  C12_run_from_new C12_demoσ 7 C12_demoOps
 
 set_option maxRecDepth 100000 in
-/-- `AllSent` holds in a non-trivial state: two segments in flight after a full flush -/
-example : (run (Kcp.new 7) (C12_demoOps.take 4)).1.snd_buf.length = 2 ∧
-    ((run (Kcp.new 7) (C12_demoOps.take 4)).1.snd_buf.all (fun s => decide (s.xmit ≠ 0))) = true := by decide
+/-- … and evaluated: the shifted run really runs across the boundaries (the Check answer wraps) and
+shows the same lengths / returns -/
+example : (run (shiftK C12_demoσ (Kcp.new 7)) (C12_demoOps.map (shiftOp C12_demoσ))).2.map
+      (fun o => (o.ret, o.data, o.outs.map List.length, o.time)) =
+    [(0, [], [], none), (0, [], [], none), (0, [], [], none), (0, [], [52], none), (0, [], [], none),
+     (0, [], [24], none), (2, [9, 9], [], none), (0, [], [], none), (0, [], [], none),
+     (0, [], [], some 115#32)] := by decide
 
-/-! ### the finding: the side condition is necessary -/
+/-! ### regression for the finding repaired by 8db4321 -/
 
 /-- a forged ACK for `sn = 1` arriving after an ACK-only flush has moved two segments into
-`snd_buf` without transmitting them -/
+`snd_buf` without transmitting them; then two full flushes -/
 def C12_cexOps : List Op :=
   [ .noDelay 0 (-1) 1 1,          -- fastresend = 1, no congestion window
     .send [1], .send [2],
     .flush false 0,               -- IKCP_FLUSH_ACKONLY (what Input does with ackNoDelay): admits both, transmits none
-    .input (encodeHdr 7 (BitVec.ofNat 8 IKCP_CMD_ACK) 0 32 5 1 0 0) true false 6 ]
+    .input (encodeHdr 7 (BitVec.ofNat 8 IKCP_CMD_ACK) 0 32 5 1 0 0) true false 6,
+    .flush true 10, .flush true 20 ]
 
 /-- only the clock is shifted, by 2^31 ms (24.8 days) -/
 def C12_cexσ : Sigma := ⟨0, 0, 0x80000000#32, 0⟩
 
 set_option maxRecDepth 100000 in
-/-- **Finding.** With the clock near 0 the forged ACK makes `parse_fastack` count the never-transmitted
-segment 0 (`_itimediff(seg.ts = 0, ts = 5) ≤ 0`), which triggers a flush inside `Input` (one datagram)
-and later a spurious fast retransmission; with the clock shifted by 2^31 (`ts = 5 + 2^31`) it does
-not: the numbers of datagrams emitted per operation differ.  Replayed on the real kcp.go with the
-same result (notes/C12.md). -/
-theorem C12_fastack_fresh_counterexample :
-    (run (Kcp.new 7) C12_cexOps).2.map (fun o => o.outs.length) = [0, 0, 0, 0, 1] ∧
+/-- Before the repair, `parse_fastack` evaluated `_itimediff(seg.ts = 0 /* never set */, ts)` for the
+never-transmitted segment 0: true with the clock near 0 (one datagram emitted inside `Input`, a
+spurious fast retransmission later: `[0,0,0,0,1,1,0]`), false with the clock shifted by 2^31
+(`[0,0,0,0,0,1,0]`) — on the model and on kcp.go alike (notes/C12.md).  Now `seg.ts` is the
+admission time and both placements give the same counts (as `C12_run_from_new` says they must). -/
+theorem C12_fastack_fresh_regression :
+    (run (Kcp.new 7) C12_cexOps).2.map (fun o => o.outs.length) = [0, 0, 0, 0, 1, 1, 0] ∧
     (run (shiftK C12_cexσ (Kcp.new 7)) (C12_cexOps.map (shiftOp C12_cexσ))).2.map (fun o => o.outs.length)
-      = [0, 0, 0, 0, 0] ∧
-    runSafe (Kcp.new 7) C12_cexOps = false := by decide
-
-theorem C12_obsRel_outs_length {σ : Sigma} {l l' : List Obs} (h : All₂ (ObsRel σ) l l') :
-    l'.map (fun o => o.outs.length) = l.map (fun o => o.outs.length) := by
-  induction h with
-  | nil => rfl
-  | cons hr _ ih => simp only [List.map_cons, ih, forall₂_length hr.outs]
-
-/-- the full run statement is false for the model -/
-theorem C12_run_shift_invariant_full_false : ¬ C12_run_shift_invariant_full := by
-  intro hfull
-  have h := C12_obsRel_outs_length (hfull C12_cexσ 7 C12_cexOps)
-  rw [C12_fastack_fresh_counterexample.1, C12_fastack_fresh_counterexample.2.1] at h
-  exact absurd h (by decide)
-
-/-- the full one-step statement is false for the model -/
-theorem C12_shift_sim_full_false : ¬ C12_shift_sim_full := by
-  intro hfull
-  apply C12_run_shift_invariant_full_false
-  intro σ conv ops
-  have key : ∀ (ops : List Op) (k k' : Kcp), Sim σ k k' →
-      All₂ (ObsRel σ) (run k ops).2 (run k' (ops.map (shiftOp σ))).2 := by
-    intro ops
-    induction ops with
-    | nil => intro _ _ _; exact All₂.nil
-    | cons op rest ih =>
-      intro k k' h
-      obtain ⟨s1, s2⟩ := hfull σ k k' op h
-      exact All₂.cons s2 (ih _ _ s1)
-  exact key ops _ _ (sim_shiftK σ (Kcp.new conv) (C12_fresh_new conv))
+      = [0, 0, 0, 0, 1, 1, 0] := by decide
 
 end KcpVerif.Props
